@@ -9,233 +9,229 @@ the composition of numpy slices (`Spec/PySliceStep`, validated against numpy on 
 -/
 import OdcGeo.Model.C09
 import OdcGeo.Lemmas.C09
+import OdcGeo.Lemmas.C09Inv
 import Mathlib.Tactic.Linarith
 import Mathlib.Tactic.Ring
+import Mathlib.Tactic.NormNum
 
 namespace OdcGeo.C09
 open OdcGeo OdcGeo.PySliceStep
 
-/-! ## the invariant carried through a history of operations -/
+/-! ## round trips -/
 
-/-- label origin and step per original pixel: world labels for an axis-aligned box,
-pixel-space labels (`k + ½`) otherwise -/
-def baseX (g : GeoBox) : Rat × Rat := if isAffineST g.A then (g.A.c + g.A.a / 2, g.A.a) else (1 / 2, 1)
-def baseY (g : GeoBox) : Rat × Rat := if isAffineST g.A then (g.A.f + g.A.e / 2, g.A.e) else (1 / 2, 1)
-def xfOf (g : GeoBox) : Option Aff := if isAffineST g.A then none else some g.A
-def caOf (g : GeoBox) : Option Crs := if isAffineST g.A then g.crs else none
-def ccOf (g : GeoBox) : Option CrsCoord := g.crs.map fun c => ⟨some c, some g.A, none⟩
+/-- **roundtrip_axis_aligned** — wrapping an array with an axis-aligned GeoBox (any signs of the
+pixel size: north-up, mirrored; any shape ≥ 1×1 including 1×N, N×1, 1×1 when a CRS is attached;
+any rank / CRS-coordinate name) and reading `.odc.geobox` returns the same GeoBox. -/
+theorem roundtrip_axis_aligned (g : GeoBox) (nt nb : Option Nat) (cn : String) (attrs : List String)
+    (a0 : XArr) (hcn : NameOk cn) (hb : g.A.b = 0) (hd : g.A.d = 0) (hny : 1 ≤ g.ny) (hnx : 1 ≤ g.nx)
+    (hcrs : g.crs.isSome = true ∨ (2 ≤ g.ny ∧ 2 ≤ g.nx))
+    (hw : wrap (.lin g) nt nb cn attrs = .ok a0) :
+    recover a0 = .ok (.lin g) := by
+  have hI := inv_wrap g nt nb cn attrs a0 hcn hw
+  have hst : isAffineST g.A = true := by
+    have : (0 : Rat) < tolST := by norm_num [tolST]
+    simp [isAffineST, hb, hd, rabs, this]
+  rw [inv_recover g cn _ _ a0 hI hny hnx (by
+    rcases hcrs with h | h
+    · exact Or.inr (Or.inl h)
+    · exact Or.inl h)]
+  obtain ⟨ny, nx, ⟨a, b, c, d, e, f⟩, crs⟩ := g
+  simp only at hb hd hst
+  subst hb; subst hd
+  simp only [labelAff, AxMap.ident, baseX, baseY, xfOf, hst, if_true, composeP2W, resOf_same,
+    Int.cast_zero, Int.cast_one, zero_mul, one_mul, add_zero]
+  congr 3
+  simp only [Aff.mul_def, Aff.mul, Aff.translation, Aff.scale]
+  ext <;> simp <;> ring
 
-/-- "the labels of both spatial axes are arithmetic progressions of the original pixel centres
-(`my`, `mx` say which), the `_transform` encoding and the CRS coordinate are intact and reachable
-on both location paths" -/
-structure Inv (g : GeoBox) (cn : String) (my mx : AxMap) (a : XArr) : Prop where
-  sd : guessDims a.dims = some (dimsOf g.crs)
-  cnDim : cn ∉ a.dims
-  ylk : a.coords.lookup (dimsOf g.crs).1 =
-    some (.axis (labelsFor (baseY g).1 (baseY g).2 my) (xfOf g) (caOf g))
-  xlk : a.coords.lookup (dimsOf g.crs).2 =
-    some (.axis (labelsFor (baseX g).1 (baseX g).2 mx) (xfOf g) (caOf g))
-  crsLk : a.coords.lookup cn = (ccOf g).map Coord.crs
-  scan : crsScan a.coords = (ccOf g).toList
-  crsKeys : ∀ k c, (k, Coord.crs c) ∈ a.coords → k = cn
-  gm : a.gridMapping = some cn ∨ a.gridMapping = none
+/-- **roundtrip_rotated** — a rotated / sheared GeoBox of *every* shape ≥ 1×1 (including 1×N, N×1 and
+1×1: finding F12, repaired), with or without CRS, round-trips through `.odc.geobox`. -/
+theorem roundtrip_rotated (g : GeoBox) (nt nb : Option Nat) (cn : String) (attrs : List String)
+    (a0 : XArr) (hcn : NameOk cn) (hrot : isAffineST g.A = false) (hny : 1 ≤ g.ny) (hnx : 1 ≤ g.nx)
+    (hw : wrap (.lin g) nt nb cn attrs = .ok a0) :
+    recover a0 = .ok (.lin g) := by
+  have hI := inv_wrap g nt nb cn attrs a0 hcn hw
+  rw [inv_recover g cn _ _ a0 hI hny hnx (Or.inr (Or.inr hrot))]
+  obtain ⟨ny, nx, ⟨a, b, c, d, e, f⟩, crs⟩ := g
+  simp only at hrot
+  simp only [labelAff, AxMap.ident, baseX, baseY, xfOf, hrot, if_false, composeP2W, resOf_same,
+    Int.cast_zero, Int.cast_one, zero_mul, one_mul, add_zero, Bool.false_eq_true]
+  congr 3
+  simp only [Aff.mul_def, Aff.mul, Aff.translation, Aff.scale]
+  ext <;> simp
 
-def NameOk (cn : String) : Prop :=
-  cn ≠ "time" ∧ cn ≠ "band" ∧ cn ≠ "y" ∧ cn ≠ "x" ∧ cn ≠ "latitude" ∧ cn ≠ "longitude"
+/-- In the tolerance band of `is_affine_st` (`0 < |b|,|d| < 1e-10`) the box is written with world
+labels that ignore `b`,`d`; what comes back is the box with `b = d = 0` (equal up to that tolerance). -/
+theorem roundtrip_tolerance_band (g : GeoBox) (nt nb : Option Nat) (cn : String) (attrs : List String)
+    (a0 : XArr) (hcn : NameOk cn) (hst : isAffineST g.A = true) (hny : 1 ≤ g.ny) (hnx : 1 ≤ g.nx)
+    (hcrs : g.crs.isSome = true) (hw : wrap (.lin g) nt nb cn attrs = .ok a0) :
+    recover a0 = .ok (.lin { g with A := { g.A with b := 0, d := 0 } }) := by
+  have hI := inv_wrap g nt nb cn attrs a0 hcn hw
+  rw [inv_recover g cn _ _ a0 hI hny hnx (Or.inr (Or.inl hcrs))]
+  obtain ⟨ny, nx, ⟨a, b, c, d, e, f⟩, crs⟩ := g
+  simp only at hst
+  simp only [labelAff, AxMap.ident, baseX, baseY, xfOf, hst, if_true, composeP2W, resOf_same,
+    Int.cast_zero, Int.cast_one, zero_mul, one_mul, add_zero]
+  congr 3
+  simp only [Aff.mul_def, Aff.mul, Aff.translation, Aff.scale]
+  ext <;> simp <;> ring
 
-/-- integer indexing is admitted on the non-spatial axes only (it removes the axis); every other
-operation — slices of any axis with any bounds / non-zero step, arithmetic, astype, pickle — is free -/
-def Op.admissible : Op → Prop
-  | .isel d (.int _) => d = "time" ∨ d = "band"
-  | _ => True
+/-- Without a CRS an axis-aligned box with a one-pixel axis cannot be recovered (no GeoTransform to
+fall back on): `.odc.geobox` is `None` — the case the statement excludes ("when a CRS is attached"). -/
+theorem roundtrip_1px_nocrs_lost :
+    (wrap (.lin ⟨1, 5, ⟨2, 0, 10, 0, -2, 20⟩, none⟩) none none "spatial_ref" []).bind recover
+      = .ok .nothing := by
+  decide +kernel
 
-theorem dimsOf_cases (c : Option Crs) :
-    dimsOf c = ("y", "x") ∨ dimsOf c = ("latitude", "longitude") := by
-  rcases c with _ | ⟨i, _ | _⟩ <;> simp [dimsOf]
+/-! ## the history theorem -/
 
-private theorem beq_false_of_ne {a b : String} (h : a ≠ b) : (a == b) = false := by simpa using h
+/-- **survives** — for every GeoBox `g` (axis-aligned incl. mirrored, or rotated/sheared; any shape,
+rank, CRS-coordinate name), every finite sequence `ops` of positional slices of any axis (any
+bounds, any non-zero step: strided, reversed, down to a single pixel), arithmetic, `astype`,
+pickling and integer indexing of the `time`/`band` axes that xarray accepts, the GeoBox recovered
+from the result has the shape of the result, the CRS of `g`, and maps the centre of every
+remaining pixel `(i, j)` to the world position of the centre of the original pixel it came from
+(`track` = composition of the numpy slices).  One-pixel results need a fallback resolution
+(`HasFallback`: a CRS is attached, or the box is rotated — exactly the statement's side condition). -/
+theorem survives (g : GeoBox) (nt nb : Option Nat) (cn : String) (attrs : List String) (ops : List Op)
+    (a0 a : XArr) (hcn : NameOk cn) (halign : isAffineST g.A = true → g.A.b = 0 ∧ g.A.d = 0)
+    (hw : wrap (.lin g) nt nb cn attrs = .ok a0) (hadm : ∀ op ∈ ops, op.admissible)
+    (hops : applyOps a0 ops = .ok a) :
+    let m := track (dimsOf g.crs).1 (dimsOf g.crs).2 (AxMap.ident g.ny, AxMap.ident g.nx) ops
+    1 ≤ m.1.len → 1 ≤ m.2.len → HasFallback g m.1 m.2 →
+      ∃ r : GeoBox, recover a = .ok (.lin r) ∧ r.ny = m.1.len ∧ r.nx = m.2.len ∧ r.crs = g.crs ∧
+        ∀ i j : Nat, i < m.1.len → j < m.2.len →
+          r.pix2wld (centre i j) = g.pix2wld (centre (m.1.orig i) (m.2.orig j)) := by
+  intro m hy hx hfb
+  have hI0 := inv_wrap g nt nb cn attrs a0 hcn hw
+  have hI := inv_ops g cn hcn ops (AxMap.ident g.ny, AxMap.ident g.nx) a0 a hI0 hadm hops
+  refine ⟨_, inv_recover g cn m.1 m.2 a hI hy hx hfb, rfl, rfl, rfl, ?_⟩
+  intro i j hi hj
+  have hc := centre_to_labels ((baseX g).1 + (m.2.off : Rat) * (baseX g).2) ((m.2.stride : Rat) * (baseX g).2)
+    ((baseY g).1 + (m.1.off : Rat) * (baseY g).2) ((m.1.stride : Rat) * (baseY g).2) m.2.len m.1.len
+    ((baseX g).2, (baseY g).2) i j hi hj
+  simp only [GeoBox.pix2wld]
+  by_cases hst : isAffineST g.A = true
+  · obtain ⟨hb, hd⟩ := halign hst
+    simp only [xfOf, hst, if_true, composeP2W]
+    unfold labelAff
+    rw [hc]
+    simp only [baseX, baseY, hst, if_true, Aff.apply, centre, AxMap.orig, hb, hd]
+    ext <;> push_cast <;> ring
+  · have hst' : isAffineST g.A = false := by simpa using hst
+    simp only [xfOf, hst', composeP2W, Bool.false_eq_true, if_false]
+    rw [Aff.apply_mul]
+    unfold labelAff
+    rw [hc]
+    simp only [baseX, baseY, hst', Bool.false_eq_true, if_false, centre, AxMap.orig]
+    congr 1
+    ext <;> push_cast <;> ring
 
-/-- `wrap` establishes the invariant (both label kinds, with / without CRS, any rank) -/
-theorem inv_wrap (g : GeoBox) (nt nb : Option Nat) (cn : String) (attrs : List String) (a0 : XArr)
-    (hcn : NameOk cn) (hw : wrap (.lin g) nt nb cn attrs = .ok a0) :
-    Inv g cn (AxMap.ident g.ny) (AxMap.ident g.nx) a0 := by
-  obtain ⟨h1, h2, h3, h4, h5, h6⟩ := hcn
-  have e1 := beq_false_of_ne h1
-  have e2 := beq_false_of_ne h2
-  have e3 := beq_false_of_ne h3
-  have e4 := beq_false_of_ne h4
-  have e5 := beq_false_of_ne h5
-  have e6 := beq_false_of_ne h6
-  have e1' := beq_false_of_ne (Ne.symm h1)
-  have e2' := beq_false_of_ne (Ne.symm h2)
-  have e3' := beq_false_of_ne (Ne.symm h3)
-  have e4' := beq_false_of_ne (Ne.symm h4)
-  have e5' := beq_false_of_ne (Ne.symm h5)
-  have e6' := beq_false_of_ne (Ne.symm h6)
-  obtain ⟨ny, nx, A, crs⟩ := g
-  simp only [wrap, xrCoords, srcDims, bind, Except.bind, pure, Except.pure] at hw
-  rcases dimsOf_cases crs with hd | hd <;> rw [hd] at hw <;>
-  by_cases hst : isAffineST A = true <;>
-  rcases crs with _ | c <;> rcases nt with _ | nt <;> rcases nb with _ | nb <;>
-  simp only [hst, if_true, if_false, Bool.false_eq_true] at hw <;>
-  (injection hw with hw; subst hw) <;>
-  (constructor <;>
-    simp [hd, guessDims, baseX, baseY, xfOf, caOf, ccOf, hst, labelsFor_ident, axisLabels_eq_ap,
-      pixelLabels_eq_ap, crsScan, List.lookup, e1, e2, e3, e4, e5, e6, e1', e2', e3', e4', e5', e6',
-      h1, h2, h3, h4, h5, h6, Ne.symm h1, Ne.symm h2, Ne.symm h3, Ne.symm h4, Ne.symm h5, Ne.symm h6])
+/-- **labels_agree** — under the same hypotheses the coordinates of the recovered GeoBox are the
+array's labels: for an axis-aligned box `GeoBox.coordinates` (`k·r + (t + r/2)`) equals the label
+vectors of both axes; for a rotated box the labels are the pixel coordinates `original index + ½`
+of the kept pixels, which the recovered transform composes with the encoded `_transform`. -/
+theorem labels_agree (g : GeoBox) (nt nb : Option Nat) (cn : String) (attrs : List String) (ops : List Op)
+    (a0 a : XArr) (hcn : NameOk cn) (hw : wrap (.lin g) nt nb cn attrs = .ok a0)
+    (hadm : ∀ op ∈ ops, op.admissible) (hops : applyOps a0 ops = .ok a) :
+    let m := track (dimsOf g.crs).1 (dimsOf g.crs).2 (AxMap.ident g.ny, AxMap.ident g.nx) ops
+    1 ≤ m.1.len → 1 ≤ m.2.len → HasFallback g m.1 m.2 →
+      ∃ (r : GeoBox) (ys xs : List Rat) (xf : Option Aff) (c1 c2 : Option Crs),
+        recover a = .ok (.lin r) ∧
+        a.coords.lookup (dimsOf g.crs).1 = some (.axis ys xf c1) ∧
+        a.coords.lookup (dimsOf g.crs).2 = some (.axis xs xf c2) ∧
+        (isAffineST g.A = true →
+          axisLabels r.ny r.A.e r.A.f = ys ∧ axisLabels r.nx r.A.a r.A.c = xs) ∧
+        (isAffineST g.A = false →
+          ys = (List.range m.1.len).map (fun (k : Nat) => ((m.1.orig k : Int) : Rat) + 1 / 2) ∧
+          xs = (List.range m.2.len).map (fun (k : Nat) => ((m.2.orig k : Int) : Rat) + 1 / 2)) := by
+  intro m hy hx hfb
+  have hI0 := inv_wrap g nt nb cn attrs a0 hcn hw
+  have hI := inv_ops g cn hcn ops (AxMap.ident g.ny, AxMap.ident g.nx) a0 a hI0 hadm hops
+  refine ⟨_, _, _, _, _, _, inv_recover g cn m.1 m.2 a hI hy hx hfb, hI.ylk, hI.xlk, ?_, ?_⟩
+  · intro hst
+    simp only [xfOf, hst, if_true, composeP2W, labelAff, Aff.mul_def, Aff.mul, Aff.translation, Aff.scale,
+      labelsFor]
+    constructor
+    · have := axisLabels_recovered ((baseY g).1 + (m.1.off : Rat) * (baseY g).2)
+        ((m.1.stride : Rat) * (baseY g).2) m.1.len hy (baseY g).2
+      simpa using this
+    · have := axisLabels_recovered ((baseX g).1 + (m.2.off : Rat) * (baseX g).2)
+        ((m.2.stride : Rat) * (baseX g).2) m.2.len hx (baseX g).2
+      simpa using this
+  · intro hst
+    simp only [labelsFor, baseX, baseY, hst, Bool.false_eq_true, if_false, ap, AxMap.orig]
+    constructor <;>
+    · apply List.map_congr_left
+      intro k _
+      push_cast
+      ring
 
-theorem dimsOf_ne (c : Option Crs) : (dimsOf c).1 ≠ (dimsOf c).2 := by
-  rcases dimsOf_cases c with h | h <;> rw [h] <;> decide
+/-! ## reprojection output -/
 
-theorem dimsOf_not_tb (c : Option Crs) (d : String) (hd : d = "time" ∨ d = "band") :
-    (dimsOf c).1 ≠ d ∧ (dimsOf c).2 ≠ d := by
-  rcases dimsOf_cases c with h | h <;> rw [h] <;> rcases hd with rfl | rfl <;> decide
-
-private theorem crs_match_isel (c : Coord) (a b : Option Int) (st : Int) :
-    (match iselCoord c a b st with | Coord.crs c' => some c' | _ => none) =
-      (match c with | Coord.crs c' => some c' | _ => none) := by
-  cases c <;> rfl
-
-/-- one admissible operation preserves the invariant and updates the index maps as `trackOp` says -/
-theorem inv_step (g : GeoBox) (cn : String) (my mx : AxMap) (a a' : XArr) (op : Op)
-    (hcn : NameOk cn) (hI : Inv g cn my mx a) (hadm : op.admissible) (hop : applyOp a op = .ok a') :
-    Inv g cn (trackOp (dimsOf g.crs).1 (dimsOf g.crs).2 (my, mx) op).1
-      (trackOp (dimsOf g.crs).1 (dimsOf g.crs).2 (my, mx) op).2 a' := by
-  cases op with
-  | arith =>
-    simp only [applyOp, Except.ok.injEq] at hop
-    subst hop
-    exact { hI with gm := Or.inr rfl }
-  | astype =>
-    simp only [applyOp, Except.ok.injEq] at hop
-    subst hop
-    exact { hI with gm := Or.inr rfl }
-  | pickle =>
-    simp only [applyOp, Except.ok.injEq] at hop
-    subst hop
-    exact hI
-  | isel d ix =>
-    simp only [applyOp] at hop
-    split at hop
-    · cases hop
-    · rename_i hdim
-      have hdim' : d ∈ a.dims := by simpa using hdim
-      have hdcn : d ≠ cn := fun h => hI.cnDim (h ▸ hdim')
-      split at hop
-      · cases hop
-      · rename_i c hc
-        cases ix with
-        | slc start stop step =>
-          simp only at hop
-          split at hop
-          · cases hop
-          · rename_i hst
-            simp only [Except.ok.injEq] at hop
-            subst hop
-            have hscan : crsScan (mapCoord d (fun x => iselCoord x start stop (step.getD 1)) a.coords)
-                = crsScan a.coords :=
-              crsScan_mapCoord d _ a.coords (fun k c _ _ => crs_match_isel c start stop _)
-            have hkeys : ∀ k c, (k, Coord.crs c) ∈ mapCoord d (fun x => iselCoord x start stop (step.getD 1)) a.coords →
-                k = cn := by
-              intro k c hm
-              obtain ⟨c0, hm0, hc0⟩ := mem_mapCoord _ _ _ _ _ hm
-              rcases hc0 with rfl | ⟨_, hc0⟩
-              · exact hI.crsKeys k c hm0
-              · cases c0 <;> simp [iselCoord] at hc0
-                subst hc0
-                exact hI.crsKeys k _ hm0
-            simp only [trackOp]
-            by_cases hy : d = (dimsOf g.crs).1
-            · subst hy
-              simp only [if_true]
-              refine ⟨hI.sd, hI.cnDim, ?_, ?_, ?_, ?_, hkeys, hI.gm⟩
-              · simp only []
-                rw [lookup_mapCoord_eq, hI.ylk]
-                simp [iselCoord, pick_labelsFor _ _ _ _ _ _ hst]
-              · simp only []
-                rw [lookup_mapCoord_ne _ _ _ _ (Ne.symm (dimsOf_ne g.crs)), hI.xlk]
-              · simp only []
-                rw [lookup_mapCoord_ne _ _ _ _ (Ne.symm hdcn), hI.crsLk]
-              · simp only []
-                rw [hscan, hI.scan]
-            · by_cases hx : d = (dimsOf g.crs).2
-              · subst hx
-                simp only [hy, if_false, if_true]
-                refine ⟨hI.sd, hI.cnDim, ?_, ?_, ?_, ?_, hkeys, hI.gm⟩
-                · simp only []
-                  rw [lookup_mapCoord_ne _ _ _ _ (dimsOf_ne g.crs), hI.ylk]
-                · simp only []
-                  rw [lookup_mapCoord_eq, hI.xlk]
-                  simp [iselCoord, pick_labelsFor _ _ _ _ _ _ hst]
-                · simp only []
-                  rw [lookup_mapCoord_ne _ _ _ _ (Ne.symm hdcn), hI.crsLk]
-                · simp only []
-                  rw [hscan, hI.scan]
-              · simp only [hy, hx, if_false]
-                refine ⟨hI.sd, hI.cnDim, ?_, ?_, ?_, ?_, hkeys, hI.gm⟩
-                · simp only []
-                  rw [lookup_mapCoord_ne _ _ _ _ (Ne.symm hy), hI.ylk]
-                · simp only []
-                  rw [lookup_mapCoord_ne _ _ _ _ (Ne.symm hx), hI.xlk]
-                · simp only []
-                  rw [lookup_mapCoord_ne _ _ _ _ (Ne.symm hdcn), hI.crsLk]
-                · simp only []
-                  rw [hscan, hI.scan]
-        | int i =>
-          have htb : d = "time" ∨ d = "band" := hadm
-          simp only at hop
-          split at hop
-          · cases hop
-          · simp only [Except.ok.injEq] at hop
-            subst hop
-            obtain ⟨hyd, hxd⟩ := dimsOf_not_tb g.crs d htb
-            have hkeys : ∀ k c, (k, Coord.crs c) ∈ mapCoord d (fun _ => Coord.scalar) a.coords → k = cn := by
-              intro k c hm
-              obtain ⟨c0, hm0, hc0⟩ := mem_mapCoord _ _ _ _ _ hm
-              rcases hc0 with rfl | ⟨_, hc0⟩
-              · exact hI.crsKeys k c hm0
-              · cases hc0
-            have hscan : crsScan (mapCoord d (fun _ => Coord.scalar) a.coords) = crsScan a.coords := by
-              apply crsScan_mapCoord
-              intro k c hm hk
-              cases c with
-              | crs cc => exact absurd ((hI.crsKeys k cc hm).symm.trans hk) (Ne.symm hdcn)
-              | _ => rfl
-            simp only [trackOp]
-            refine ⟨?_, ?_, ?_, ?_, ?_, ?_, hkeys, hI.gm⟩
-            · simp only []
-              rw [guessDims_filter _ _ htb, hI.sd]
-            · simp only []
-              intro hm
-              exact hI.cnDim (List.mem_filter.mp hm).1
-            · simp only []
-              rw [lookup_mapCoord_ne _ _ _ _ hyd, hI.ylk]
-            · simp only []
-              rw [lookup_mapCoord_ne _ _ _ _ hxd, hI.xlk]
-            · simp only []
-              rw [lookup_mapCoord_ne _ _ _ _ (Ne.symm hdcn), hI.crsLk]
-            · simp only []
-              rw [hscan, hI.scan]
-
-/-- the invariant survives every finite history of admissible operations (induction on `ops`) -/
-theorem inv_ops (g : GeoBox) (cn : String) (hcn : NameOk cn) (ops : List Op) :
-    ∀ (m : AxMap × AxMap) (a a' : XArr), Inv g cn m.1 m.2 a → (∀ op ∈ ops, op.admissible) →
-      applyOps a ops = .ok a' →
-      Inv g cn (track (dimsOf g.crs).1 (dimsOf g.crs).2 m ops).1
-        (track (dimsOf g.crs).1 (dimsOf g.crs).2 m ops).2 a' := by
-  induction ops with
-  | nil =>
-    intro m a a' hI _ h
-    simp only [applyOps, Except.ok.injEq] at h
-    subst h
-    exact hI
-  | cons op rest ih =>
-    intro m a a' hI hadm h
-    simp only [applyOps] at h
-    split at h
+/-- **reproject_prunes** — the DataArray assembled by `_xr_reproject_da` carries no key of
+`SPATIAL_ATTRIBUTES` and its `grid_mapping` encoding names the new `spatial_ref` coordinate,
+whatever the source attributes were. -/
+theorem reproject_prunes (src : XArr) (dst : GeoBox) (nd : Bool) (out : XArr)
+    (h : assemble src dst nd = .ok out) :
+    (∀ k ∈ out.attrs, k ∉ spatialAttributes) ∧ out.gridMapping = some "spatial_ref" := by
+  unfold assemble at h
+  simp only at h
+  split at h
+  · cases h
+  · split at h
+    · split at h
+      · cases h
+      · split at h
+        · cases h
+        · simp only [Except.ok.injEq] at h
+          subst h
+          refine ⟨?_, rfl⟩
+          intro k hk
+          simp only at hk
+          split at hk
+          · simp only [List.mem_append, List.mem_filter, List.mem_singleton] at hk
+            rcases hk with ⟨⟨_, h2⟩, _⟩ | rfl
+            · simpa using h2
+            · decide
+          · simp only [List.mem_filter] at hk
+            simpa using hk.1.2
     · cases h
-    · rename_i a1 h1
-      have hstep := inv_step g cn m.1 m.2 a a1 op hcn hI (hadm op List.mem_cons_self) h1
-      exact ih _ a1 a' hstep (fun o ho => hadm o (List.mem_cons_of_mem _ ho)) h
+
+/-! ## GCP boxes -/
+
+/-- **roundtrip_gcp_points** — a GCP-registered array (identity pixel transform, CRS attached, any
+shape ≥ 1×1 incl. single row / column: second defect repaired on fix-C09) gives back a GCPGeoBox
+with the same shape, CRS, pixel transform and the *same ground control points*, hence the same
+pixel→world function (the polynomial fit is a function of the point set).  `==` on GCPGeoBox
+compares the mapping object by identity and is therefore never `True` after a round trip
+(shared known finding `gcp-geobox-eq-identity`, owned by C19). -/
+theorem roundtrip_gcp_points (ny nx : Nat) (pts : List Gcp) (c : Crs) (nt nb : Option Nat)
+    (attrs : List String) (a0 : XArr) (hny : 1 ≤ ny) (hnx : 1 ≤ nx)
+    (hw : wrap (.gcp ⟨ny, nx, pts, Aff.id, some c⟩) nt nb "spatial_ref" attrs = .ok a0) :
+    recover a0 = .ok (.gcp ⟨ny, nx, pts, Aff.id, some c⟩) := by
+  have hpts : pts.map (fun p => (⟨(Aff.id.inv.apply (p.col, p.row)).1, (Aff.id.inv.apply (p.col, p.row)).2,
+      p.x, p.y⟩ : Gcp)) = pts := by
+    conv_rhs => rw [← List.map_id pts]
+    apply List.map_congr_left
+    intro p _
+    cases p
+    simp [Aff.inv, Aff.id, Aff.apply, Aff.det]
+  have hdet : (Aff.id.det = 0) = False := by simp [Aff.det, Aff.id]
+  simp only [wrap, xrCoords, exportGcps, Aff.inv?, hdet, if_false, srcDims, bind, Except.bind, pure,
+    Except.pure, hpts] at hw
+  have hfb : (2 ≤ nx ∧ 2 ≤ ny) ∨ fallbackRes (if true then none else none)
+      (some ⟨some c, none, some pts⟩) true = .ok (some ((1 : Rat), (1 : Rat))) := Or.inr (by simp [fallbackRes])
+  have hex := extractTransform_ap (1 / 2) 1 (1 / 2) 1 nx ny hnx hny none (some ⟨some c, none, some pts⟩) true
+    (1, 1) hfb
+  have hex' : extractTransform (ap 2⁻¹ 1 nx) (ap 2⁻¹ 1 ny) none (some ⟨some c, none, some pts⟩) true
+      = .ok (some Aff.id) := by
+    simp only [one_div] at hex
+    rw [hex]
+    simp [composeP2W, resOf_same, Aff.mul_def, Aff.mul, Aff.translation, Aff.scale, Aff.id]
+  rcases dimsOf_cases (some c) with hd | hd <;> rw [hd] at hw <;>
+  rcases nt with _ | nt <;> rcases nb with _ | nb <;>
+  (injection hw with hw; subst hw) <;>
+  simp [recover, spatialDims, guessDims, locateCrsCoords, List.lookup, pixelLabels_eq_ap, hex', ap_length]
 
 end OdcGeo.C09
